@@ -144,6 +144,16 @@ func runC16(c *caseWriter) (string, bool, map[string]int) {
 			c16Selector(c, v, one)
 		}
 	}
+	// runes outside ASCII (letters, digits, symbols) whose LOW BYTE is a bracket, a quote, a backslash or a brace, next
+	// to real brackets: a scanner that narrows runes to bytes counts them as delimiters (they balance a real bracket
+	// or hide one); with the unchanged engine every selector containing one of them is refused
+	for _, r := range []rune{0x0428, 0x0128, 0x4e28, 0x0429, 0x0129, 0x4e29, 0x045b, 0x015b, 0x045d, 0x015d, 0x0122, 0x0127, 0x015c, 0x017b, 0x017d, 0x0222, 0x1e5b, 0x2028, 0x2229, 0xff08, 0xff09, 0xff3b, 0xff3d} {
+		u := string(r)
+		for _, v := range []string{"a" + u + ")", "a(" + u, "a[" + u, "a" + u + "]", u + ")b{", ":not(" + u, "a[b=" + u + "]{}x[", u + u, "a)" + u, "a]" + u, u + "(", u + "[", "a[b=\"" + u + "]", "." + u + "){}body{background:url(//e/)}x("} {
+			c16Selector(c, v, one)
+		}
+		rxCase(c, "invalidCSSSelectorRune", u)
+	}
 	for _, m := range malformed {
 		for _, v := range []string{m, "a" + m, "\"" + m + "\"", "\"\\" + m + "\"", "a[b='" + m + "']" + m} {
 			c16Selector(c, v, one)
